@@ -249,13 +249,17 @@ var (
 	memSoft     = memLimit("VH_MEM_SOFT_MB", 2<<30)
 	memChecks   int
 	memExceeded bool
+	memBase     int64 // resident set size of the worker before its first scenario (the scenario list itself can be large)
 )
+
+// memGrowth is what the worker has grown by since it began to explore.
+func memGrowth() int64 { return rssBytes() - memBase }
 
 func (e *Explorer) explore(prefix []int, spent int, k int) bool {
 	if time.Now().After(e.deadline) || memExceeded {
 		return false
 	}
-	if memChecks++; memChecks%128 == 0 && rssBytes() > memHard {
+	if memChecks++; memChecks%128 == 0 && memGrowth() > memHard {
 		memExceeded = true
 		return false
 	}
